@@ -33,6 +33,7 @@ type tStep struct {
 	kind string        // T catastrophic timed, Q quick timed, I idle, S stop clock, P parallel timed, M parallel timed with one long deadline, N parallel quick timed, R quick timed overtaken between its two clock reads, G expect clock goroutine gone
 	d    time.Duration // timeout or idle
 	k    int           // P: number of concurrent matches
+	e    int           // T, Q: entry point (index into entryNames)
 }
 
 func (s tStep) String() string {
@@ -41,6 +42,9 @@ func (s tStep) String() string {
 		return fmt.Sprintf("%s(%d)", s.kind, s.k)
 	case "S", "G":
 		return s.kind
+	}
+	if s.e != 0 && (s.kind == "T" || s.kind == "Q") {
+		return fmt.Sprintf("%s(%v,%s)", s.kind, s.d, entryNames[s.e%len(entryNames)])
 	}
 	return fmt.Sprintf("%s(%v)", s.kind, s.d)
 }
@@ -118,10 +122,47 @@ type stepObs struct {
 }
 
 func timedMatch(d time.Duration, in []rune) (time.Duration, error) {
+	return timedMatchE(d, in, 0)
+}
+
+// entry points a timed match is made through (T and Q steps rotate over them)
+var entryNames = []string{"FindRunesMatch", "FindStringMatch", "MatchString", "MatchRunes", "Replace", "ReplaceFunc", "Split", "FindAllStringIndex", "FindNextMatch", "FindStringMatchStartingAt"}
+
+func timedMatchE(d time.Duration, in []rune, entry int) (time.Duration, error) {
 	re := regexp2.MustCompile(catPattern, regexp2.None)
 	re.MatchTimeout = d
+	s := string(in)
+	var err error
 	t := time.Now()
-	_, err := re.FindRunesMatch(in)
+	switch entry % len(entryNames) {
+	case 0:
+		_, err = re.FindRunesMatch(in)
+	case 1:
+		_, err = re.FindStringMatch(s)
+	case 2:
+		_, err = re.MatchString(s)
+	case 3:
+		_, err = re.MatchRunes(in)
+	case 4:
+		_, err = re.Replace(s, "-", -1, -1)
+	case 5:
+		_, err = re.ReplaceFunc(s, func(m regexp2.Match) string { return "-" }, -1, -1)
+	case 6:
+		_, err = re.Split(s, -1)
+	case 7:
+		_, err = re.FindAllStringIndex(s, -1)
+	case 8:
+		// a quick first match, then the (possibly catastrophic) rest through FindNextMatch:
+		// the deadline of the second call starts at the second call
+		var m *regexp2.Match
+		m, err = re.FindStringMatch("xxy" + s)
+		if err == nil && m != nil {
+			t = time.Now()
+			_, err = re.FindNextMatch(m)
+		}
+	case 9:
+		_, err = re.FindStringMatchStartingAt("xy"+s, 2)
+	}
 	return time.Since(t), err
 }
 
@@ -147,7 +188,7 @@ func runTimedHistory(h []tStep, tol time.Duration) (obs []stepObs, snapshots []s
 		}
 		switch s.kind {
 		case "T":
-			lat, err := timedMatch(s.d, catInput)
+			lat, err := timedMatchE(s.d, catInput, s.e)
 			o.latency = lat
 			o.err = mon.ErrClass(err)
 			switch {
@@ -163,7 +204,7 @@ func runTimedHistory(h []tStep, tol time.Duration) (obs []stepObs, snapshots []s
 				o.missedBy = lat - s.d - lateSlack
 			}
 		case "Q":
-			lat, err := timedMatch(s.d, quickInput)
+			lat, err := timedMatchE(s.d, quickInput, s.e)
 			o.latency = lat
 			o.err = mon.ErrClass(err)
 			if err != nil {
@@ -197,7 +238,7 @@ func runTimedHistory(h []tStep, tol time.Duration) (obs []stepObs, snapshots []s
 				go func(i int) {
 					defer wg.Done()
 					d := time.Duration(20+30*i) * time.Millisecond
-					lat, err := timedMatch(d, catInput)
+					lat, err := timedMatchE(d, catInput, i+s.e)
 					switch {
 					case err == nil || !mon.IsTimeout(err):
 						res[i] = fmt.Sprintf("concurrent match %d (timeout %v) returned %v", i, d, err)
@@ -439,9 +480,9 @@ func randomHistory(rng *rand.Rand) []tStep {
 	for i := 0; i < n; i++ {
 		switch rng.Intn(12) {
 		case 0, 1, 2:
-			h = append(h, tStep{kind: "T", d: []time.Duration{20, 50, 120}[rng.Intn(3)] * time.Millisecond})
+			h = append(h, tStep{kind: "T", d: []time.Duration{20, 50, 120}[rng.Intn(3)] * time.Millisecond, e: rng.Intn(len(entryNames))})
 		case 3, 4:
-			h = append(h, tStep{kind: "Q", d: []time.Duration{50, 5000}[rng.Intn(2)] * time.Millisecond})
+			h = append(h, tStep{kind: "Q", d: []time.Duration{50, 5000}[rng.Intn(2)] * time.Millisecond, e: rng.Intn(len(entryNames))})
 		case 5, 6:
 			h = append(h, tStep{kind: "I", d: []time.Duration{5, 300}[rng.Intn(2)] * time.Millisecond})
 		case 7:
@@ -482,8 +523,21 @@ type c14Obs struct {
 
 func allHistories(seed int64, quick bool) [][]tStep {
 	histories := fixedHistories()
+	// every second fixed history rotates its T and Q steps over the entry points
+	n := 0
+	for hi, h := range histories {
+		if hi%2 == 1 {
+			continue
+		}
+		for i := range h {
+			if h[i].kind == "T" || h[i].kind == "Q" || h[i].kind == "P" {
+				n++
+				h[i].e = n % len(entryNames)
+			}
+		}
+	}
 	rng := rand.New(rand.NewSource(seed*314606869 + 14))
-	n := 150
+	n = 150
 	if quick {
 		n = 4
 	}
@@ -660,7 +714,7 @@ func runC14(r *core.Run) int {
 	r.Workers = 1
 	r.Extras["bounds"] = map[string]any{"histories": len(histories), "clock_period": clockPeriod.String(), "window": fmt.Sprintf("[d-%v, d+%v] (+5ms per concurrent match)", earlySlack, lateSlack), "timeouts": "20/50/120 ms", "idles": "5 ms, 300 ms, 1.3 s, 2.5 s", "isolation": "every history runs in its own child process under a watchdog"}
 	return r.Finish(
-		"histories of timed catastrophic matches T(d) (must fail with a timeout inside [d-5ms, d+40ms]), timed quick matches Q(d) (must not report a timeout), idle gaps shorter and longer than timeout + the clock's 1 s slop (after the long ones the clock goroutine must be gone and timeouts must still fire), StopTimeoutClock calls (must return and leave no clock goroutine) concurrent timed matches with different deadlines P(k), N(k): k quick matches with a generous timeout whose deadline computations are held at the hook point until all have looked at the clock (none may report a timeout), R(k): a quick match held between its two lock-free clock reads while k-1 others run to completion, and M(k): one 1.5 s and k-1 10 ms deadlines computed together (the hook point between the unlocked look at the clock's end and its locked extension holds the long one until the others arrive, then lets it go first) on clocks that never ran, were stopped, ran out or are running, with a 1 ms clock period; each history runs in a fresh child process under a watchdog (a match whose timeout never fires cannot hang the check); 27 hand-ordered histories covering every predecessor/successor pair that matters plus seeded random ones; evaluation = one step; non-trivial = distinct history",
+		"histories of timed catastrophic matches T(d) through ten entry points (FindRunesMatch, FindStringMatch, MatchString, MatchRunes, Replace, ReplaceFunc, Split, FindAllStringIndex, FindNextMatch, FindStringMatchStartingAt; must fail with a timeout inside [d-5ms, d+40ms]), timed quick matches Q(d) (must not report a timeout), idle gaps shorter and longer than timeout + the clock's 1 s slop (after the long ones the clock goroutine must be gone and timeouts must still fire), StopTimeoutClock calls (must return and leave no clock goroutine) concurrent timed matches with different deadlines P(k), N(k): k quick matches with a generous timeout whose deadline computations are held at the hook point until all have looked at the clock (none may report a timeout), R(k): a quick match held between its two lock-free clock reads while k-1 others run to completion, and M(k): one 1.5 s and k-1 10 ms deadlines computed together (the hook point between the unlocked look at the clock's end and its locked extension holds the long one until the others arrive, then lets it go first) on clocks that never ran, were stopped, ran out or are running, with a 1 ms clock period; each history runs in a fresh child process under a watchdog (a match whose timeout never fires cannot hang the check); 27 hand-ordered histories covering every predecessor/successor pair that matters plus seeded random ones; evaluation = one step; non-trivial = distinct history",
 		[]string{"wall-clock verdicts: a miss is a suspect, re-executed 3 times in fresh processes with scheduler overshoot measured; a timing miss counts only if it exceeds twice the overshoot measured in the same run (+5 ms); violation only if reproduced 3/3, otherwise inconclusive", "millisecond-level accuracy is not claimed"},
 		map[string]int64{"evaluations": 40, "distinct_nontrivial": 10, "step_T": 10, "step_G": 3, "step_S": 3})
 }
